@@ -24,11 +24,21 @@ def extent (d : Int × Int) : Nat := (d.2 - d.1 + 1).toNat
 def dimsLen (dims : List (Int × Int)) : Nat :=
   dims.foldl (fun len d => len * extent d) 1
 
+/-- Port of `dimensions_to_array_length` as it is now (f23bb7c): every extent is computed in `i64` and must
+convert to `usize`, the running product is `checked_mul` in `usize` (64 bit); `none` = Out of memory (7)
+(`VArray::try_new`; a failed `try_reserve_exact` — not modelled, it depends on the machine — gives the same error). -/
+def dimsLenChecked : List (Int × Int) → Nat → Option Nat
+  | [], len => some len
+  | (lb, ub) :: ds, len =>
+      if ub - lb + 1 < 0 then none
+      else if len * (ub - lb + 1).toNat ≥ 18446744073709551616 then none
+      else dimsLenChecked ds (len * (ub - lb + 1).toNat)
+
 /-- The loop of `VArray::abs_index`.  The Rust loop runs `i` from the last index down to the first with a
 running `index` and `multiplier`; here the two lists are passed *reversed* so that the head is the
-element the loop looks at.  `none` = `Err(SubscriptOutOfRangeError)`.  Lists of different length
-(`debug_assert_eq!(indices.len(), dimensions.len())`, a panic in debug builds; the linter keeps the
-ranks equal) also give `none`. -/
+element the loop looks at.  `none` = `Err(SubscriptOutOfRangeError)`.  Lists of different length (a wrong
+number of subscripts) also give `none`: `abs_index` starts with `if indices.len() != self.dimensions.len()
+{ return Err(SubscriptOutOfRangeError) }` (since 725b882; a debug assertion before). -/
 def absLoop : List (Int × Int) → List Int → Int → Int → Option Int
   | [], [], index, _ => some index
   | (lb, ub) :: ds, arg :: as, index, mult =>
